@@ -60,6 +60,16 @@ type pre struct {
 	LSH     uint64
 	Window  uint64
 	H       int64
+	// oracle-set phase
+	Sets    []setT
+	Latest  uint64
+	LastObs int64 // -1: none observed
+	Pct     string
+}
+
+type setT struct {
+	Nonce, Height uint64
+	Members       [][2]int64 // ext id, normalised power
 }
 
 func main() {
@@ -127,6 +137,7 @@ func main() {
 		rep.Sample(map[string]interface{}{"module": h.Module, "stakes_fx": h.Stakes, "window": h.Window, "blocks": len(h.Blocks), "first_blocks": firstN(h.Blocks, 6)})
 	}
 	lib.WriteCases("Cases_C07.v", []string{"model.M_EndBlock", "gen.Gen_EndBlock", "model.M_EndBlockCorr"}, "eb_case", items, "eb_mismatch")
+	lib.WriteCases("Cases_C07_full.v", []string{"model.M_EndBlock", "gen.Gen_EndBlock", "model.M_EndBlockCorr", "model.M_OsetPhase", "model.M_OsetPhaseCorr"}, "eb2_case", items2, "eb2_mismatch")
 	rep.Write()
 }
 
@@ -155,6 +166,8 @@ func replay() {
 }
 
 // runHistory generates (or, with script != nil, replays) one history.
+var items2 []string
+
 func runHistory(r *lib.Rand, hseed int64, module string, rep *lib.Report, items *[]string, script *history) history {
 	h := history{Seed: hseed, Module: module}
 	c := lib.NewChain(hseed, 2, nil)
@@ -327,6 +340,25 @@ func runHistory(r *lib.Rand, hseed int64, module string, rep *lib.Report, items 
 					return err
 				})
 				o.Res = errClass(e)
+			case "observe_oset":
+				// the external chain reports that a stored oracle set took effect (LastObservedOracleSet): enables pruning
+				sets := x.Keeper.GetOracleSets(c.Ctx)
+				if len(sets) == 0 {
+					o.Res = "none"
+					break
+				}
+				set := sets[int(o.B)%len(sets)]
+				if lo := x.Keeper.GetLastObservedOracleSet(c.Ctx); lo != nil && lo.Nonce >= set.Nonce {
+					o.Res = "stale"
+					break
+				}
+				x.Keeper.SetLastObservedOracleSet(c.Ctx, set)
+				o.Res = fmt.Sprintf("set=%d", set.Nonce)
+			case "set_pct":
+				params := x.Keeper.GetParams(c.Ctx)
+				params.OracleSetUpdatePowerChangePercent = sdkmath.LegacyMustNewDecFromStr([]string{"0.1", "0.001", "0.00000001", "0", "1", "0.05", "0.33333333", "0.000000005"}[o.B%8])
+				_, e := x.Msg().UpdateParams(c.Ctx, &crosschaintypes.MsgUpdateParams{ChainName: module, Authority: lib.GovAuthority(), Params: params})
+				o.Res = errClass(e)
 			case "top_up":
 				// a small stake increase by an ONLINE oracle: a small non-zero normalised power change
 				or := x.Oracles[o.A%len(x.Oracles)]
@@ -387,7 +419,9 @@ func runHistory(r *lib.Rand, hseed int64, module string, rep *lib.Report, items 
 				Sig: "C07:endblock:" + failClass(err.Error()), Replay: h})
 			// a halt caused by another module (e.g. the gov refund failure) is outside the crosschain end-block model
 			if cl := failClass(err.Error()); cl == "bech32-decode" || cl == "panic" {
-				*items = append(*items, coqCase(p, nil, x, c, accID, extID))
+				base := coqCase(p, nil, x, c, accID, extID)
+				*items = append(*items, base)
+				items2 = append(items2, coqCase2(base, p, false, x, c, extID))
 			}
 			return h
 		}
@@ -401,13 +435,18 @@ func runHistory(r *lib.Rand, hseed int64, module string, rep *lib.Report, items 
 		for _, o := range ops {
 			rep.Count("op=" + o.Kind)
 		}
-		*items = append(*items, coqCase(p, &p, x, c, accID, extID))
+		base := coqCase(p, &p, x, c, accID, extID)
+		*items = append(*items, base)
+		items2 = append(items2, coqCase2(base, p, true, x, c, extID))
+		if len(p.Sets) > 0 && p.LastObs >= 0 {
+			rep.Count("block=prune-eligible")
+		}
 	}
 	return h
 }
 
 func genOp(r *lib.Rand, nOracles int) op {
-	kinds := []string{"bridge_call", "bridge_call", "inject_batch", "inject_batch", "confirm_oset", "confirm_oset", "confirm_batch", "confirm_bcall", "confirm_bcall", "add_delegate", "gov_proposal", "top_up", "top_up", "gov_vote", "gov_vote", "set_window", "gov_cancel", "gov_proposal_dep"}
+	kinds := []string{"bridge_call", "bridge_call", "inject_batch", "inject_batch", "confirm_oset", "confirm_oset", "confirm_batch", "confirm_bcall", "confirm_bcall", "add_delegate", "gov_proposal", "top_up", "top_up", "gov_vote", "gov_vote", "set_window", "gov_cancel", "gov_proposal_dep", "observe_oset", "observe_oset", "set_pct"}
 	return op{Kind: kinds[r.Intn(len(kinds))], A: r.Intn(nOracles + 6), B: uint64(r.Intn(8))}
 }
 
@@ -503,7 +542,61 @@ func snapshot(c *lib.Chain, x *lib.XChain, extID, accID map[string]int, window u
 		p.C3 = x.Keeper.GetLastSlashedBridgeCallNonce(ctx)
 	}
 	p.LSH = x.Keeper.GetLastOracleSlashBlockHeight(ctx)
+	for _, st := range x.Keeper.GetOracleSets(ctx) {
+		p.Sets = append(p.Sets, setT{Nonce: st.Nonce, Height: st.Height, Members: memberIDs(extID, st.Members)})
+	}
+	p.Latest = x.Keeper.GetLatestOracleSetNonce(ctx)
+	p.LastObs = -1
+	if lo := x.Keeper.GetLastObservedOracleSet(ctx); lo != nil {
+		p.LastObs = int64(lo.Nonce)
+	}
+	p.Pct = x.Keeper.GetOracleSetUpdatePowerChangePercent(ctx).BigInt().String()
 	return p
+}
+
+// memberIDs: (external-address id, normalised power), ascending id; an address that is no oracle key of this
+// history gets an id above every oracle's
+func memberIDs(extID map[string]int, ms crosschaintypes.BridgeValidators) [][2]int64 {
+	var out [][2]int64
+	for i, m := range ms {
+		id, ok := extID[m.ExternalAddress]
+		if !ok {
+			id = 1000 + i
+		}
+		out = append(out, [2]int64{int64(id), int64(m.Power)})
+	}
+	sort.Slice(out, func(i, j int) bool { return out[i][0] < out[j][0] })
+	return out
+}
+
+func pairs(ms [][2]int64) string {
+	var s []string
+	for _, m := range ms {
+		s = append(s, lib.Pair(fmt.Sprint(m[0]), fmt.Sprint(m[1])))
+	}
+	return lib.List(s)
+}
+
+// coqCase2: the same block as coqCase, extended by the oracle-set phase (create request + prune)
+func coqCase2(base string, p pre, ok bool, x *lib.XChain, c *lib.Chain, extID map[string]int) string {
+	var sets []string
+	for _, st := range p.Sets {
+		sets = append(sets, fmt.Sprintf("mk_set %d %d %s", st.Nonce, st.Height, pairs(st.Members)))
+	}
+	obs := "Obs2Panic"
+	if ok {
+		ctx := c.Ctx
+		var stored []string
+		for _, st := range x.Keeper.GetOracleSets(ctx) {
+			stored = append(stored, lib.Pair(fmt.Sprint(st.Nonce), fmt.Sprint(st.Height)))
+		}
+		var mem [][2]int64
+		if ls := x.Keeper.GetLatestOracleSet(ctx); ls != nil {
+			mem = memberIDs(extID, ls.Members)
+		}
+		obs = fmt.Sprintf("(Obs2Ok %s %d %s)", lib.List(stored), x.Keeper.GetLatestOracleSetNonce(ctx), pairs(mem))
+	}
+	return fmt.Sprintf("mk_eb2_case (%s) %s %d (%d) %s %s", base, lib.List(sets), p.Latest, p.LastObs, p.Pct, obs)
 }
 
 // decision: the window has elapsed over some object an online oracle has not confirmed
